@@ -112,6 +112,9 @@ def positions_ti(obj):
         tgt = (lambda o, u=uid: o[u])
         yield "variant[%s].id" % uid, "ti.variant.id", _set(tgt, "id"), None
         yield "variant[%s].type" % uid, "ti.variant.type", _set(tgt, "type"), None
+        yield "variant[%s].name" % uid, "ti.variant.name", _set(tgt, "name"), None
+        for kind in ("packages", "identity"):
+            yield "variant[%s].paths.%s" % (uid, kind), "ti.variant.path", _set(lambda o, t=tgt: t(o).paths, kind), None
         if is_child:
             yield "variant[%s].uid" % uid, None, _set(tgt, "uid"), ["Other-%s" % uid.split("-")[-1]]
     for platform in sorted(obj.images.images):
@@ -316,10 +319,8 @@ def run_unit(unit, acc):
             else:
                 acc.outcome("converse:written")
     else:
-        import productmd.common
-        for arch in productmd.common.RPM_ARCHES:
-            if arch in ("src", "nosrc"):
-                continue
+        from mc.models import ids
+        for arch in ids.BINARY_ARCHES_DOC:
             o = eval_enum("image-tree-arch", arch)
             acc.ev()
             if o["result"] != "written":
@@ -327,11 +328,10 @@ def run_unit(unit, acc):
                               "images manifest under documented arch %s refused: %s" % (arch, o["result"]))
             else:
                 acc.outcome("converse:enum-written")
-        o = eval_enum("variant-arches", [a for a in productmd.common.RPM_ARCHES if a not in ("src", "nosrc")])
+        o = eval_enum("variant-arches", list(ids.BINARY_ARCHES_DOC))
         acc.ev()
         if o["result"] != "written":
-            acc.violation("valid-refused:arch", {"kind": "enum", "what": "variant-arches",
-                                                 "value": [a for a in productmd.common.RPM_ARCHES if a not in ("src", "nosrc")]}, o,
+            acc.violation("valid-refused:arch", {"kind": "enum", "what": "variant-arches", "value": list(ids.BINARY_ARCHES_DOC)}, o,
                           "composeinfo variant with every documented arch refused: %s" % o["result"])
         else:
             acc.outcome("converse:enum-written")
